@@ -58,6 +58,7 @@ func runStat(s statSpec) (reads [][][4]int64, snap snapshot, panics int32) {
 			start()
 			for i := 0; i < s.Ops; i++ {
 				k := s.Lo + int64(rnd.Intn(s.NK))
+				beat()
 				v := k*64 + int64(w)
 				switch r := rnd.Intn(10); {
 				case r < 4:
